@@ -37,21 +37,22 @@ class Applied:
             if not rec.on:
                 return None
             obs, leaf = rq.dry_run(sim, request)
+            pw = rq.documented_power_ok(sim, request)
             try:
                 bit = bool(sim._request_manager.check_valid(request, {}))
                 mask = "allow" if bit else "deny"
             except Exception as e:  # noqa
                 mask = f"raised:{type(e).__name__}"
-            return (obs, leaf, mask)
+            return (obs, leaf, mask, pw)
 
         def after(sim, tok, ret, exc, request, context=None):
             if not rec.on or tok is None:
                 return
-            obs, leaf, mask = tok
+            obs, leaf, mask, pw = tok
             status = getattr(ret, "status", None) or ("raised:" + type(exc).__name__ if exc else "not-a-response")
             data = getattr(ret, "data", None) or {}
             reason = bool(data.get("reason")) if isinstance(data, dict) else False
-            rec.events.append(rq.req_event(obs, leaf, True, status, reason, 0, 0, mask, True, False))
+            rec.events.append(rq.req_event(obs, leaf, True, status, reason, 0, 0, mask, True, False, pwok=pw))
             rec.meta.append({"request": [str(x)[:50] for x in request], "applied": True})
 
         tracer.wrap(Simulation, "apply_request", before=before, after=after)
@@ -64,7 +65,8 @@ def all_entries(env, rec: Applied):
     for i, (aname, opts) in agent.action_manager.action_map.items():
         req = agent.action_manager.form_request(aname, opts)
         obs, leaf = rq.dry_run(sim, req)
-        rec.events.append(rq.req_event(obs, leaf, False, "", False, 0, 0, "allow" if bool(masks[i]) else "deny", True, False))
+        rec.events.append(rq.req_event(obs, leaf, False, "", False, 0, 0, "allow" if bool(masks[i]) else "deny", True, False,
+                                       pwok=rq.documented_power_ok(sim, req)))
         rec.meta.append({"entry": i, "action": aname, "options": {k: str(v) for k, v in opts.items()}})
 
 
@@ -75,15 +77,16 @@ def check_declared(env, a: int, rec: Applied):
     if h is None:
         return
     try:
-        aname, opts = agent.config.action_space.action_map[a].action, agent.config.action_space.action_map[a].options
+        aname, opts = agent.action_manager.action_map[a]   # the entry stored under KEY a
         want = [str(x) for x in agent.action_manager.form_request(aname, opts)]
     except Exception:  # noqa - no claim
         return
     got = [str(x) for x in h.request]
-    if got != want:
+    norm = lambda xs: [{"False": "0", "True": "1"}.get(x, x) for x in xs]  # noqa  (a flag may be written 0 / false)
+    if norm(got) != norm(want):
         obs, leaf = rq.dry_run(env.game.simulation, list(h.request))
         rec.events.append(rq.req_event(obs, leaf, True, getattr(h.response, "status", ""), False, 0, 0, "na", True, False, declared=False))
-        rec.meta.append({"entry": a, "declared": want[:8], "executed": got[:8]})
+        rec.meta.append({"entry": a, "declared": want[:12], "executed": got[:12]})
 
 
 def run_env(label: str, cfg: Dict[str, Any], steps: int, episodes: int, rng: random.Random, rec: Applied, chk: common.Check):
